@@ -710,3 +710,6 @@ def run(ctx):
     r3(ctx)
     r4(ctx)
     r5(ctx)
+    # writer and reader consume the presence bitmap under the same conditions (shared with C03)
+    from .c03 import r9 as presence_slots
+    presence_slots(ctx, rule="C01.R6")
